@@ -558,6 +558,9 @@ namespace detail_ {
 					case modes::pos:
 						if (isdigit(c)) {
 							pos_set = true;
+							// Out-of-range positions make the spec malformed.
+							if (tmp_pos > (~size_t(0) - 9) / 10)
+								return false;
 							tmp_pos *= 10;
 							tmp_pos += c - '0';
 						} else if (c == ':') {
